@@ -1,8 +1,9 @@
 (* Extraction of the executable model. ExtrOcamlBasic only: bool/option/unit/list/prod/sumbool
    map to OCaml natives; N, Z, positive, nat stay as extracted inductives. *)
 Require Import ExtrOcamlBasic.
-Require Import SQV.Model.Str SQV.Model.Escape.
+Require Import SQV.Model.Str SQV.Model.Escape SQV.Model.Token SQV.Generated.Alpha.
 Extraction Language OCaml.
 Set Extraction KeepSingleton.
 Extraction "model.ml"
-  escape_string unescape_string dec_of_Z.
+  escape_string unescape_string dec_of_Z
+  tokenize unquote text is_alpha_rust.
